@@ -38,3 +38,11 @@ chk("C05", "E5-grid", "exploration",
     "Full grid of domains (every first byte x following-byte and suffix classes) x every generic/attestation/proposal endpoint position (single, multisign positions, batch positions) x administrator lists x source addresses on the real signer stack, against the truth table of the property text; every produced signature is also bound to the submitted data and domain.",
     "Trusted: domain bytes beyond the enumerated classes do not matter; symbolic account keys stand in for BLS.",
     "exhaustive input x configuration grid with truth-table oracle", "5/C05")
+chk("C08", "E5-grid", "exploration",
+    "Single requests over boundary field values with real BLS keys verified by the BLS library against a signing root computed by an independent sha256 merkleisation; attestation batches and multisign of every listed size under every listed GOMAXPROCS with distinct per-entry data (exactly n results and signatures, signature i bound to account i and data i, not to i+1), partly through the gRPC handlers; a reduced (n, procs) grid repeated with real BLS.",
+    "Trusted: the BLS library; symbolic keys (signature bytes = H(pubkey, message)) for the large grid.",
+    "exhaustive (size x parallelism x field value) grid with an independent signing-root oracle", "5/C08")
+chk("C18", "E5-grid", "exploration",
+    "Wallet/account populations (plain and distributed, regex-significant names) x permission tables x every list of requested paths up to length 2 (3 in thorough) x clients, before and after dynamic account creation, through the real gRPC lister handler; the returned set must lie between the must-contain and may-contain sets of a reference lister, with names and keys equal to the store's.",
+    "Trusted: names and patterns outside the alphabets behave like their representatives.",
+    "exhaustive configuration x request grid against a reference lister (set inclusion both ways)", "5/C18")
